@@ -15,7 +15,7 @@ from . import spec as S
 from .source import Repo, strip_docstring, fn_fingerprint, SourceError
 from .values import *  # noqa
 
-FEAS_TIMEOUT_MS = 4000
+FEAS_TIMEOUT_MS = 1500
 MAX_PATHS = 4000
 MAX_CALL_DEPTH = 40
 
@@ -990,6 +990,9 @@ class Interp:
             if isinstance(k, int):
                 if -len(items) <= k < len(items):
                     return items[k]
+                if (self.in_spec or self.nofork) and items:
+                    # total reading inside specifications: an unspecified value of the element shape
+                    return self.havoc_like_spec(items[0])
                 raise PyRaise("IndexError", node)
             if isinstance(k, Sym) and k.k == "int":
                 n = len(items)
@@ -1078,6 +1081,30 @@ class Interp:
             return SList(r) if isinstance(c, SList) else tuple(r)
         if isinstance(c, str):
             return c[slice(lo, hi)]
+        if isinstance(c, (SList, tuple)) and not self.nofork:
+            # concrete shape, symbolic bounds: enumerate the (finitely many) effective bounds
+            items = c.items if isinstance(c, SList) else list(c)
+            n = len(items)
+
+            def conc(x, default):
+                if x is None:
+                    return default
+                x = self.force(x, node)
+                if isinstance(x, bool):
+                    x = int(x)
+                if isinstance(x, int):
+                    return max(0, min(n, x + n if x < 0 else x))
+                xt = self.z(x, "int")
+                xt = z3.If(xt < 0, xt + n, xt)
+                xt = z3.If(xt < 0, z3.IntVal(0), z3.If(xt > n, z3.IntVal(n), xt))
+                for v in range(0, n + 1):
+                    if v == n or self.branch(xt == v, node):
+                        return v
+
+            l0 = conc(lo, 0)
+            h0 = conc(hi, n)
+            r = items[l0:h0]
+            return SList(r) if isinstance(c, SList) else tuple(r)
         if isinstance(c, (SList, SymList)):
             n = self.length_term(c)
 
@@ -1199,6 +1226,19 @@ class Interp:
             self.note_write(cont)
             v.owner = (cont, idx, cont.version)
 
+    def havoc_like_spec(self, v):
+        """an unspecified value shaped like ``v`` (out-of-range reads inside specifications)"""
+        if isinstance(v, SObj):
+            return SObj(v.cls, {f: self.havoc_like_spec(x) for f, x in v.fields.items()}, v.declname)
+        k = self.kind_of(v)
+        if k in ("int", "real", "bool", "str"):
+            return self.fresh_scalar(k, "undef")
+        if isinstance(v, tuple):
+            return tuple(self.havoc_like_spec(x) for x in v)
+        if isinstance(v, SOpt):
+            return SOpt(z3.Bool(self.fresh_name("undef.isnone")), self.havoc_like_spec(v.val))
+        return v
+
     def shallow_copy(self, v):
         if isinstance(v, SObj):
             o = SObj(v.cls, dict(v.fields), v.declname)
@@ -1295,6 +1335,9 @@ class Interp:
             if t.kind == "none":
                 return None
             return self.fresh_scalar(t.kind, name)
+        if isinstance(t, S.Lit):
+            v = t.value
+            return Fraction(repr(v)) if isinstance(v, float) else v
         if isinstance(t, S.Enum):
             if all(isinstance(x, str) for x in t.values):
                 v = self.fresh_scalar("str", name)
